@@ -115,6 +115,7 @@ structure Peer where
   extMeta : Bool := false              -- extension handshake advertised ut_metadata
   extSize : Nat := 0
   pexOn : Bool := false                -- pe.PEX ≠ nil
+  served : List (Nat × Nat × Nat) := []   -- peerwriter.servedRequests
   deriving Repr, Inhabited
 
 /-- A running piece download (`pieceDownloaders[pe]`). -/
@@ -178,6 +179,10 @@ structure St where
   parMeta : Nat := 2
   mayStartI : Bool := false            -- startInfoDownloaders ran in this op
   metaDone : Bool := false             -- completeMetadataC closed
+  unchoked : List Nat := []            -- unchoker.peersUnchoked
+  optimistic : List Nat := []          -- unchoker.peersUnchokedOptimistic
+  nUnchoke : Nat := 3
+  nOptimistic : Nat := 1
   dials : Nat := 0                     -- outgoing connection attempts seen by the harness's sink address
   banned : List String := []
   panicked : Option String := none
@@ -256,8 +261,11 @@ def St.closePeer (s : St) (k : Nat) : St :=
   | some _ =>
     let s := s.closeDl k
     let s := { s with peers := s.peers.filter (·.k ≠ k), mayStart := s.mayStart.filter (· ≠ k),
-                      idls := s.idls.filter (·.k ≠ k) }
-    s.startDls
+                      idls := s.idls.filter (·.k ≠ k),
+                      unchoked := s.unchoked.filter (· ≠ k), optimistic := s.optimistic.filter (· ≠ k) }
+    -- startPieceDownloaders (fix C10-F1), startInfoDownloaders (fix C13-F2)
+    let s := s.startDls
+    if s.errC && !s.info then { s with mayStartI := true } else s
 
 def St.writeBitfield (s : St) : St :=
   match s.bf with
@@ -491,7 +499,17 @@ def handlePeerMessage (m : M) (k : Nat) (msg : Msg) : M :=
       else
         let m := onSt m fun s => { s with dls := s.dls.map fun x => if x.k = k then { x with choked := true, snub := false } else x }
         onSt m (·.startDls)
-  | .interested => onSt m (·.updPeer k fun p => { p with peerInterested := true })
+  | .interested =>
+    -- pe.PeerInterested = true; unchoker.FastUnchoke(pe)
+    let m := onSt m (·.updPeer k fun p => { p with peerInterested := true })
+    match m.1.findPeer k with
+    | none => m
+    | some p =>
+      if p.clientChoking && m.1.unchoked.length < m.1.nUnchoke then
+        send (onSt m fun s => { (s.updPeer k fun p => { p with clientChoking := false }) with unchoked := s.unchoked ++ [k] }) k "unchoke"
+      else if p.clientChoking && m.1.optimistic.length < m.1.nOptimistic then
+        send (onSt m fun s => { (s.updPeer k fun p => { p with clientChoking := false }) with optimistic := s.optimistic ++ [k] }) k "unchoke"
+      else m
   | .notInterested => onSt m (·.updPeer k fun p => { p with peerInterested := false })
   | .request i b l =>
     if !ready then closePeerM m k
@@ -501,12 +519,16 @@ def handlePeerMessage (m : M) (k : Nat) (msg : Msg) : M :=
       match s.findPeer k with
       | none => m
       | some p =>
+        -- SendPiece: the writer answers a request it has already served with a reject
+        let sendPiece (m : M) : M :=
+          if p.served.contains (i, b, l) then send m k s!"reject:{i}:{b}:{l}"
+          else send (onSt m (·.updPeer k fun p => { p with served := (i, b, l) :: p.served })) k s!"piece:{i}:{b}:{l}:ok"
         if !(s.done.getD i false) then send m k s!"reject:{i}:{b}:{l}"
         else if p.clientChoking then
           if p.fast then
-            if p.sentAF.contains i then send m k s!"piece:{i}:{b}:{l}:ok" else send m k s!"reject:{i}:{b}:{l}"
+            if p.sentAF.contains i then sendPiece m else send m k s!"reject:{i}:{b}:{l}"
           else m
-        else send m k s!"piece:{i}:{b}:{l}:ok"
+        else sendPiece m
   | .reject i b l =>
     if !ready then closePeerM m k
     else if i ≥ s.n then closePeerM m k
